@@ -793,19 +793,31 @@ func compErrFacts() map[string]bool {
 				}
 				f["hasperrLock"] = true
 			case "<-db.closeC":
-				n := len(cc.Body)
-				if n == 0 || stmtText(cc.Body[n-1]) != "return" {
+				// wp51 BEGIN (closeC arm: hooks ignored; two recognised forms of the hasperr arm)
+				var body []ast.Stmt
+				for _, st := range cc.Body {
+					if !isHook(st) {
+						body = append(body, st)
+					}
+				}
+				n := len(body)
+				if n == 0 || stmtText(body[n-1]) != "return" {
 					shape = false
 					continue
 				}
 				f[label+"Close"] = true
 				switch {
 				case n == 1:
-				case n == 2 && label == "hasperr" && stmtText(cc.Body[0]) == "if db.compWriteLocking { <-db.writeLockC }":
+				case n == 2 && label == "hasperr" && stmtText(body[0]) == "if db.compWriteLocking { <-db.writeLockC }":
+					// the code as found: the lock is given back, Close (or a parked writer) takes it
 					f["hasperrGivesBack"] = true
+				case n == 2 && label == "hasperr" && stmtText(body[0]) == "if db.compWriteLocking { close(db.compLockedC) }":
+					// since the repair of D42: the lock is kept, Close is told through compLockedC
+					f["hasperrKeepsLock"] = true
 				default:
 					shape = false
 				}
+				// wp51 END
 			default:
 				shape = false
 			}
@@ -814,6 +826,139 @@ func compErrFacts() map[string]bool {
 	f["shape"] = shape
 	return f
 }
+
+// wp51 BEGIN
+// closeSelectsCompLocked: DB.Close acquires the write lock with
+//   select { case db.writeLockC <- struct{}{}: case <-db.compLockedC: }
+// (both arms empty, no default), after `close(db.closeC)` and before `db.closeW.Wait()`, it contains no other send on
+// writeLockC, and compLockedC is mentioned nowhere in the package but in that select, in compactionError's
+// `close(db.compLockedC)`, in the struct field and in openDB's `make`.
+// closePlainAcquire: the code as found: the top-level statement `db.writeLockC <- struct{}{}` in that place, no compLockedC anywhere.
+func closeLockFacts() (selects, plain bool) {
+	fd := findFunc("leveldb/db.go", "DB.Close")
+	if fd == nil {
+		fatal("function DB.Close not found")
+	}
+	iClose, iAcq, iWait, nAcq := -1, -1, -1, 0
+	for i, st := range fd.Body.List {
+		switch t := stmtText(st); {
+		case t == "close(db.closeC)":
+			iClose = i
+		case t == "db.closeW.Wait()":
+			iWait = i
+		case t == "db.writeLockC <- struct{}{}":
+			iAcq, plain = i, true
+			nAcq++
+		case t == "select { case db.writeLockC <- struct{}{}: case <-db.compLockedC: }" ||
+			t == "select { case <-db.compLockedC: case db.writeLockC <- struct{}{}: }":
+			iAcq, selects = i, true
+			nAcq++
+		}
+	}
+	if nAcq != 1 || iClose < 0 || iWait < 0 || !(iClose < iAcq && iAcq < iWait) ||
+		strings.Count(funcText("leveldb/db.go", "DB.Close"), "db.writeLockC <-") != 1 {
+		return false, false
+	}
+	// every mention of compLockedC in the package (non-test files)
+	mentions := 0
+	ents, err := os.ReadDir(filepath.Join(repo, "leveldb"))
+	if err != nil {
+		fatal("%v", err)
+	}
+	for _, e := range ents {
+		nm := e.Name()
+		if e.IsDir() || !strings.HasSuffix(nm, ".go") || strings.HasSuffix(nm, "_test.go") {
+			continue
+		}
+		b, err := os.ReadFile(filepath.Join(repo, "leveldb", nm))
+		if err != nil {
+			fatal("%v", err)
+		}
+		for _, ln := range strings.Split(string(b), "\n") {
+			if i := strings.Index(ln, "//"); i >= 0 {
+				ln = ln[:i]
+			}
+			mentions += strings.Count(ln, "compLockedC")
+		}
+	}
+	if selects {
+		// field, make, close (compactionError), receive (Close)
+		ce := compErrFacts()
+		selects = mentions == 4 && ce["hasperrKeepsLock"] &&
+			strings.Contains(funcText("leveldb/db.go", "openDB"), "compLockedC:") &&
+			strings.Contains(funcText("leveldb/db.go", "openDB"), "make(chan struct{})")
+	}
+	if plain {
+		plain = mentions == 0
+	}
+	return selects, plain
+}
+
+// topSeqNorm: among the top-level statements of fn (hooks skipped), statements whose whitespace-normalised text is
+// pats[0], pats[1], … (a pattern ending in "…" matches a statement that starts with the text before it) occur in this
+// order; funcOK says that fn exists (a missing function makes the fact false, not the extractor fail: the facts of
+// wp51 are about code that did not exist before the repairs).
+func topSeqNorm(rel, fn string, pats []string) bool {
+	fd := findFunc(rel, fn)
+	if fd == nil || fd.Body == nil {
+		return false
+	}
+	k := 0
+	for _, st := range fd.Body.List {
+		if k == len(pats) {
+			break
+		}
+		if isHook(st) {
+			continue
+		}
+		t, pat := stmtText(st), pats[k]
+		if t == pat || (strings.HasSuffix(pat, "…") && strings.HasPrefix(t, strings.TrimSuffix(pat, "…"))) {
+			k++
+		}
+	}
+	return k == len(pats)
+}
+
+// funcTextOr: the printed body of fn, or "" when fn does not exist.
+func funcTextOr(rel, fn string) string {
+	if findFunc(rel, fn) == nil {
+		return ""
+	}
+	return funcText(rel, fn)
+}
+
+// trOpenRegistersThenChecksClosed (repair of D43, OpenTransaction side): the top-level statements
+//   db.trMu.Lock(); db.tr = tr; closed := db.isClosed(); db.trMu.Unlock(); if closed { tr.Discard(); return nil, ErrClosed }
+// occur in this order, `db.tr = tr` occurs once, and `setDone` clears db.tr under trMu before it gives the lock back.
+func trOpenRegistersThenChecksClosed() bool {
+	const rel, fn = "leveldb/db_transaction.go", "DB.OpenTransaction"
+	if findFunc(rel, fn) == nil || findFunc(rel, "Transaction.setDone") == nil {
+		return false
+	}
+	return topSeqNorm(rel, fn, []string{"db.trMu.Lock()", "db.tr = tr", "closed := db.isClosed()", "db.trMu.Unlock()", "if closed {…"}) &&
+		countStmts(rel, fn, "db.tr = tr") == 1 &&
+		ifBodySeq(rel, fn, "closed", []string{"tr.Discard()", "return nil, ErrClosed"}) &&
+		topSeqNorm(rel, "Transaction.setDone", []string{"tr.db.trMu.Lock()", "tr.db.tr = nil", "tr.db.trMu.Unlock()", "<-tr.db.writeLockC"}) &&
+		countStmts(rel, "Transaction.setDone", "tr.db.tr = nil") == 1
+}
+
+// trCloseReadsUnderMuAfterClosed (repair of D43, Close side): the top-level statements of DB.Close
+//   if !db.setClosed() {…}; close(db.closeC); db.trMu.Lock(); tr := db.tr; db.trMu.Unlock(); if tr != nil { tr.Discard() }; <acquire the write lock>
+// occur in this order and db.tr is mentioned nowhere else in Close.
+func trCloseReadsUnderMuAfterClosed() bool {
+	const rel, fn = "leveldb/db.go", "DB.Close"
+	if findFunc(rel, fn) == nil {
+		return false
+	}
+	t := funcText(rel, fn)
+	acq := topSeqNorm(rel, fn, []string{"if !db.setClosed() {…", "close(db.closeC)", "db.trMu.Lock()", "tr := db.tr", "db.trMu.Unlock()", "if tr != nil {…", "db.writeLockC <- struct{}{}"}) ||
+		topSeqNorm(rel, fn, []string{"if !db.setClosed() {…", "close(db.closeC)", "db.trMu.Lock()", "tr := db.tr", "db.trMu.Unlock()", "if tr != nil {…", "select { case db.writeLockC <- struct{}{}:…"}) ||
+		topSeqNorm(rel, fn, []string{"if !db.setClosed() {…", "close(db.closeC)", "db.trMu.Lock()", "tr := db.tr", "db.trMu.Unlock()", "if tr != nil {…", "select { case <-db.compLockedC:…"})
+	return acq && ifBodyHas(rel, fn, "tr != nil", "tr.Discard()") &&
+		strings.Count(t, "db.tr") == strings.Count(t, "db.trMu")+1 && strings.Count(t, "db.trMu") == 2
+}
+
+// wp51 END
 
 // commOf finds, among the comm clauses of sel, the one whose communication has the text comm.
 func commOf(sel *ast.SelectStmt, comm string) *ast.CommClause {
@@ -1426,7 +1571,8 @@ func main() {
 			{"ceHasperrPerErr", "hasperrPerErr", "`hasperr:` has `case db.compPerErrC <- err`"},
 			{"ceHasperrLock", "hasperrLock", "`hasperr:` has `case db.writeLockC <- struct{}{}: db.compWriteLocking = true`"},
 			{"ceHasperrClose", "hasperrClose", "`hasperr:` has `case <-db.closeC: … return`"},
-			{"ceHasperrGivesBack", "hasperrGivesBack", "`hasperr:` the `closeC` case does `if db.compWriteLocking { <-db.writeLockC }` before it returns"},
+			{"ceHasperrGivesBack", "hasperrGivesBack", "`hasperr:` the `closeC` case does `if db.compWriteLocking { <-db.writeLockC }` before it returns (the code as found; false since the repair of D42)"},
+			{"ceHasperrKeepsLockOnClose", "hasperrKeepsLock", "`hasperr:` the `closeC` case does `if db.compWriteLocking { close(db.compLockedC) }` before it returns: the write lock is kept for `Close` (wp51)"},
 			{"ceShape", "shape", "`compactionError` is `var err error` and the three labelled `for { select { … } }` loops `noerr`, `haserr`, `hasperr`, with no `select` case or `switch` case besides the recognised ones"},
 		} {
 			o.boolean(c.lean, ce[c.key], c.doc)
@@ -1438,6 +1584,15 @@ func main() {
 			"`SetReadOnly` sets `db.compWriteLocking` itself right after it has taken the write-lock token (false since 832d000: `compactionError` sets it when it takes `ErrReadOnly`)")
 		o.boolean("lkSetReadOnlyPerErrGivesBack", b,
 			"the `compPerErrC` arm of `SetReadOnly`'s second `select` gives its token back (`<-db.writeLockC`) before it returns the error")
+	}
+	{
+		// wp51 BEGIN
+		sel, plain := closeLockFacts()
+		o.boolean("lkCloseSelectsCompLocked", sel,
+			"`DB.Close` acquires the write lock with `select { case db.writeLockC <- struct{}{}: case <-db.compLockedC: }` between `close(db.closeC)` and `db.closeW.Wait()`; `compLockedC` is made in `openDB`, closed only by `compactionError` and received only here (wp51)")
+		o.boolean("lkClosePlainAcquire", plain,
+			"`DB.Close` acquires the write lock with the plain send `db.writeLockC <- struct{}{}` (the code as found) and no `compLockedC` exists")
+		// wp51 END
 	}
 	o.boolean("ceCallersAsModelled", callersOfCompErr(),
 		"`SetReadOnly` (two `select`s: take the write lock and set `compWriteLocking`, then post `ErrReadOnly` and set `compReadOnly`, with `compPerErrC` / `closeC` alternatives) and `compactionTransact` (post the result on `compErrSetC`, or take `compPerErrC` and exit if the result was an error, or exit on `closeC`; return on nil, exit on corruption) talk to `compactionError` as modelled (either shape of `SetReadOnly`: before or since 832d000)")
@@ -1546,6 +1701,42 @@ func main() {
 		pr := funcText("leveldb/db_write.go", "DB.putRec")
 		o.boolean("lifeDBMethodsGuarded", ok && n >= 14 && strings.Index(pr, "db.ok()") >= 0 && strings.Index(pr, "db.ok()") < 40,
 			"every exported method of `*DB` starts with the `db.ok()` check (Put/Delete through `putRec`; `Close` flips the flag with `setClosed`)")
+	}
+	{
+		// wp51 BEGIN: the repairs of D41, D43, D44, D45, D46 (calls racing Close; Props/C18.lean `code_close_race_repairs`, Model/TrClose.lean)
+		o.boolean("trOpenRegistersThenChecksClosed", trOpenRegistersThenChecksClosed(),
+			"`OpenTransaction` does `db.trMu.Lock(); db.tr = tr; closed := db.isClosed(); db.trMu.Unlock()` and then `if closed { tr.Discard(); return nil, ErrClosed }`; `setDone` clears `db.tr` under `trMu` before it gives the write lock back (D43)")
+		o.boolean("trCloseReadsUnderMuAfterClosed", trCloseReadsUnderMuAfterClosed(),
+			"`DB.Close` reads `db.tr` once, in `db.trMu.Lock(); tr := db.tr; db.trMu.Unlock()`, after `setClosed` and `close(db.closeC)` and before it acquires the write lock, and discards what it saw (D43)")
+		gs := funcTextOr("leveldb/cache/cache.go", "Cache.GetStats")
+		o.boolean("lifeGetStatsNilSafe", gs != "" &&
+			ifBodyHas("leveldb/cache/cache.go", "Cache.GetStats", "h != nil", "buckets = len(h.buckets)") &&
+			strings.Contains(gs, "h := (*mHead)(atomic.LoadPointer(&r.mHead)); h != nil") &&
+			!strings.Contains(gs, "(atomic.LoadPointer(&r.mHead)).buckets"),
+			"`Cache.GetStats` reads the bucket table through `if h := (*mHead)(atomic.LoadPointer(&r.mHead)); h != nil { buckets = len(h.buckets) }` and never dereferences the loaded pointer unchecked (D41: `Cache.Close` stores nil there)")
+		wraps := func(fn, ret string) bool {
+			t := funcTextOr("leveldb/table.go", fn)
+			return t != "" && strings.Contains(t, ret) && !strings.Contains(t, "return tr.Find") && !strings.Contains(t, "return tr.OffsetOf")
+		}
+		cir := findFunc("leveldb/table.go", "closedIfReleased")
+		o.boolean("lifeReaderReleasedIsClosed", cir != nil && len(cir.Body.List) == 2 &&
+			stmtText(cir.Body.List[0]) == "if err == table.ErrReaderReleased { return ErrClosed }" && stmtText(cir.Body.List[1]) == "return err" &&
+			wraps("tOps.find", "return rkey, rvalue, closedIfReleased(err)") && wraps("tOps.findKey", "return rkey, closedIfReleased(err)") &&
+			wraps("tOps.offsetOf", "return offset, closedIfReleased(err)") &&
+			strings.Contains(funcTextOr("leveldb/db_iter.go", "dbIter.iterErr"), "i.setErr(closedIfReleased(err))"),
+			"`tOps.find`, `tOps.findKey`, `tOps.offsetOf` and `dbIter.iterErr` pass the table reader's error through `closedIfReleased`, which maps `table.ErrReaderReleased` to `ErrClosed` (D44)")
+		cv := func(fn, ret, use string) bool {
+			return findFunc("leveldb/db.go", fn) != nil && ifBodyHas("leveldb/db.go", fn, "v.closing", ret) &&
+				textBefore("leveldb/db.go", fn, "v := db.s.version()", "if v.closing {") && textBefore("leveldb/db.go", fn, "if v.closing {", use)
+		}
+		o.boolean("lifeClosingVersionIsClosed", cv("DB.GetProperty", `return "", ErrClosed`, "v.tLen(") && cv("DB.GetProperty", `return "", ErrClosed`, "v.levels") &&
+			cv("DB.Stats", "return ErrClosed", "v.levels") && cv("DB.SizeOf", "return nil, ErrClosed", "v.offsetOf("),
+			"`GetProperty`, `Stats` and `SizeOf` return `ErrClosed` when the version they took is the stand-in of a closed session (`if v.closing`), before they read its levels (D45)")
+		rl := funcTextOr("leveldb/table/reader.go", "Reader.Release")
+		o.boolean("lifeReleaseKeepsIndexBlock", rl != "" && !strings.Contains(rl, "r.indexBlock.Release()") &&
+			ifBodyHas("leveldb/table/reader.go", "Reader.Release", "r.indexBlock != nil", "r.indexBlock = nil"),
+			"`table.Reader.Release` drops the preloaded index block (`r.indexBlock = nil`) without `r.indexBlock.Release()`: its buffer is not recycled under iterators that walk it without a reference (D46)")
+		// wp51 END
 	}
 	o.boolean("ordPointReadsHoldSnapshot", topStmtBefore("leveldb/db.go", "DB.Get", "se := db.acquireSnapshot()", "defer db.releaseSnapshot(se)") &&
 		topStmtBefore("leveldb/db.go", "DB.Get", "defer db.releaseSnapshot(se)", "return db.get(nil, nil, key, se.seq, ro)") &&
